@@ -641,7 +641,7 @@ func workerEnv(scratch string, w, b int, tz string) []string {
 	}
 	env = append(env, fmt.Sprintf("GORACE=log_path=%s halt_on_error=0 exitcode=0 history_size=5", raceLogPrefix(scratch, w, b)))
 	env = append(env, "TZ="+tz)
-	env = append(env, "GOMAXPROCS=2")
+	env = append(env, "GOMAXPROCS=1") // one P: per-P structures of the runtime (sync.Pool private slots) are shared by all simulated tasks, as they are whenever two goroutines meet on a P
 	return env
 }
 
